@@ -80,7 +80,14 @@ pub enum Cause {
 
 #[derive(Clone, Debug, PartialEq, Eq, Serialize, Deserialize)]
 pub enum Ev {
-    Start { h: u8, kind: OpKind },
+    Start {
+        h: u8,
+        kind: OpKind,
+        /// run to quiescence right after the start and judge the accept/refuse decision
+        /// exactly (always the case under auto_settle)
+        #[serde(default)]
+        settle: bool,
+    },
     CloneHandle,
     DropHandle { sel: u16 },
     /// cancel the sel-th pending operation
@@ -110,6 +117,10 @@ pub enum Ev {
 #[derive(Clone, Debug, PartialEq, Eq, Serialize, Deserialize, Default)]
 pub struct Scenario {
     pub receive_max: Option<u16>,
+    /// Maximum Packet Size announced in CONNACK (the scenario's own operations stay
+    /// far below 200 bytes; only a user DISCONNECT may exceed it)
+    #[serde(default)]
+    pub max_packet_size: Option<u32>,
     pub events: Vec<Ev>,
 }
 
@@ -239,6 +250,8 @@ pub struct Stats {
     pub completions: usize,
     pub events_applied: usize,
     pub events_skipped: usize,
+    pub inexact_starts: usize,
+    pub oversized_disconnect: bool,
 }
 
 pub struct SimOut {
@@ -265,6 +278,7 @@ struct Sim<'a> {
     failures: Vec<Failure>,
     stats: Stats,
     r: u32,
+    max_packet_size: Option<u32>,
     next_in_pid: u16,
     msg_counter: usize,
     awaiting_rel: BTreeSet<u16>,
@@ -871,12 +885,28 @@ impl<'a> Sim<'a> {
         self.on_completions();
     }
 
-    fn start(&mut self, h: u8, kind: OpKind) {
+    /// nothing the context has not yet seen: no unread input, no unprocessed
+    /// acknowledgement, no request still queued
+    fn all_processed(&self) -> bool {
+        self.w.reader.unread() == 0
+            && !self.w.writer.blocked()
+            && self.mops.iter().all(|m| m.acks.iter().all(|a| a.ctx_polled_after))
+            // a request that was submitted (future polled at least once) and is neither on the
+            // wire nor answered is still queued — also when its future has been dropped since
+            && (0..self.mops.len()).all(|i| {
+                !(self.w.ops[i].res.is_none()
+                    && !self.tr.on_wire(i)
+                    && (self.w.ops[i].pending() || self.w.ops[i].first_polled_step.is_some()))
+            })
+    }
+
+    fn start(&mut self, h: u8, kind: OpKind, settle_now: bool) {
         let live = self.w.live_handles();
         let Some(k) = idx((h as u16) << 8, live.len()) else {
             self.stats.events_skipped += 1;
             return;
         };
+        let clean_before = self.all_processed();
         let i = self.w.ops.len();
         let spec = self.op_spec(i, kind);
         self.w.start_op(live[k], spec);
@@ -901,7 +931,11 @@ impl<'a> Sim<'a> {
         if refused {
             self.stats.quota_exhausted += 1;
         }
-        if self.cfg.auto_settle {
+        let exact = self.cfg.auto_settle || (settle_now && clean_before);
+        if settle_now && !clean_before && !self.cfg.auto_settle {
+            self.stats.inexact_starts += 1;
+        }
+        if exact {
             // regime Q: the request is handled now, the quota verdict is exact
             let wire_before = self.w.wire_len();
             self.settle();
@@ -918,7 +952,11 @@ impl<'a> Sim<'a> {
                         format!("publish {i} started with {out_before} outstanding (Receive Maximum {}), result {res:?}, on wire: {on_wire}", self.r),
                     );
                 }
-                if self.w.wire_len() != wire_before {
+                if on_wire {
+                    self.fail("C10/refused-but-written", format!("publish {i} refused for quota, yet its PUBLISH is on the wire"));
+                }
+                if self.cfg.auto_settle && self.w.wire_len() != wire_before {
+                    // under quiescent stepping nothing else can have been written meanwhile
                     self.fail("C10/refused-but-written", format!("publish {i} refused for quota, yet {} bytes were written", self.w.wire_len() - wire_before));
                 }
             } else {
@@ -945,8 +983,8 @@ impl<'a> Sim<'a> {
         self.w.tick();
         self.stats.events_applied += 1;
         match ev {
-            Ev::Start { h, kind } => {
-                self.start(*h, *kind);
+            Ev::Start { h, kind, settle } => {
+                self.start(*h, *kind, *settle);
             }
             Ev::CloneHandle => {
                 let live = self.w.live_handles();
@@ -1141,6 +1179,22 @@ impl<'a> Sim<'a> {
                     self.msubs.push(None);
                     let _ = i;
                     self.expected_run = Some(RunExpect::Ok);
+                    // a DISCONNECT larger than the server's Maximum Packet Size is refused
+                    // locally: nothing is written, so no terminating cause has occurred
+                    let spec_len = rc::encode(
+                        &rc::Packet::Disconnect(match &self.w.ops[i].spec {
+                            OpSpec::Disconnect(d) => d.expected(),
+                            _ => unreachable!(),
+                        }),
+                        &rc::Form::canonical(),
+                    )
+                    .len();
+                    if self.max_packet_size.map(|m| spec_len as u64 > m as u64).unwrap_or(false) {
+                        self.mops[i].expected = Some(OpRes::Err(ErrSum::MaximumPacketSizeExceeded));
+                        self.expected_run = None;
+                        self.terminated = None;
+                        self.stats.oversized_disconnect = true;
+                    }
                 }
             }
             Cause::ServerDisconnect(d, short) => {
@@ -1623,6 +1677,7 @@ pub fn run(scn: &Scenario, cfg: &SimCfg) -> SimOut {
     let mut w = World::new();
     let connack = rc::Connack {
         receive_maximum: scn.receive_max,
+        maximum_packet_size: scn.max_packet_size,
         ..Default::default()
     };
     let mut failures = vec![];
@@ -1647,6 +1702,7 @@ pub fn run(scn: &Scenario, cfg: &SimCfg) -> SimOut {
         failures,
         stats: Stats::default(),
         r: scn.receive_max.map(|v| v as u32).unwrap_or(65535),
+        max_packet_size: scn.max_packet_size,
         next_in_pid: 1000,
         msg_counter: 0,
         awaiting_rel: BTreeSet::new(),
